@@ -166,9 +166,10 @@ func runC08(c *Ctx) {
 	if w := c.Fn("pkg/frame", "Writer.Write"); w != nil {
 		r.Functions[fnQual(w)] = true
 		var guard *ssa.If
+		var notRaw *ssa.BasicBlock
 		for _, iff := range ifsIn(w) {
-			if strings.HasSuffix(ex(iff.Cond), ".(*message.MessageRaw)?#1") {
-				guard = iff
+			if _, fb, _, hit := succWhenFunc(iff, func(cs string) bool { return strings.HasSuffix(cs, ".(*message.MessageRaw)?#1") && !strings.HasPrefix(cs, "!") }); hit {
+				guard, notRaw = iff, fb
 			}
 		}
 		bad := ""
@@ -185,7 +186,7 @@ func runC08(c *Ctx) {
 					n := calleeName(&x.Call)
 					mut = isEncodeCall(n)
 				}
-				if mut && !edgeMustPass(w, edge{guard.Block(), guard.Block().Succs[1]}, in.Block()) {
+				if mut && !edgeMustPass(w, edge{guard.Block(), notRaw}, in.Block()) {
 					bad = "frame mutated at " + c.Pos(in.Pos()) + " even when it already carries a raw message"
 				}
 			}
